@@ -41,6 +41,7 @@ THEOREMS = [
     "Optyx.Props.C16.sort_perm_invariant",
     "Optyx.Props.C16.problemVariables_perm_invariant",
     "Optyx.Props.C16.get_bounds_spec",
+    "Optyx.Props.SortText.sortKey_text",
 ]
 ASSUMPTIONS = [
     "ASCII digits only in names (Python's \\d also matches other Unicode decimal digits)",
